@@ -48,10 +48,6 @@ func c04Setup(env world.Env, g c04Group) {
 	mustOK(env.Deliver(rnstypes.NewMsgRegisterName(a, "payer.jkl", 2, "{}", false)), "register payer.jkl")
 	// a registered provider, so that the collateral escrow holds tokens no purchase may touch
 	mustOK(env.Deliver(storagetypes.NewMsgInitProvider(w.A("feeder").Bech, "https://node.feeder.com", 1_000_000, "kb")), "InitProvider")
-	if g.feed != "" {
-		mustOK(env.Deliver(oracletypes.NewMsgCreateFeed(w.A("feeder").Bech, "jklprice")), "CreateFeed")
-		mustOK(env.Deliver(oracletypes.NewMsgUpdateFeed(w.A("feeder").Bech, "jklprice", `{"price":"`+g.feed+`","24h_change":"0"}`)), "UpdateFeed")
-	}
 	k := w.App.StorageKeeper
 	switch g.plan {
 	case "smaller":
@@ -80,6 +76,12 @@ func c04Setup(env world.Env, g c04Group) {
 		if bp := env.NextBlock(10 * day); bp != nil {
 			panic(bp.Value)
 		}
+	}
+	// the existing plans above were bought at the default price; the feed takes its value only now (a zero, negative or
+	// unparsable price makes every later purchase fail, which is one of the outcomes under test, not a set-up failure)
+	if g.feed != "" {
+		mustOK(env.Deliver(oracletypes.NewMsgCreateFeed(w.A("feeder").Bech, "jklprice")), "CreateFeed")
+		mustOK(env.Deliver(oracletypes.NewMsgUpdateFeed(w.A("feeder").Bech, "jklprice", `{"price":"`+g.feed+`","24h_change":"0"}`)), "UpdateFeed")
 	}
 	env.Mutate(func(ctx sdk.Context) {
 		ps := k.GetParams(ctx)
@@ -172,7 +174,7 @@ func c04RunBuy(env world.Env, g c04Group, b c04Buy) (vs []mc.Viol, class string)
 			// the pay-for-self case with a fresh account: plan state is 'none' for it; keep the group label honest
 		}
 		if err := w.App.BankKeeper.SendCoins(ctx, w.A("funder").Addr, payer.Addr, sdk.NewCoins(sdk.NewCoin("ujkl", paid.SubRaw(1)))); err != nil {
-			panic(err)
+			return nil, "skipped/price-beyond-the-funds-of-the-harness" // nobody in this world can hold price-1
 		}
 		if b.referral == "self" || b.referral == "self-caps" {
 			refStr = payer.Bech
@@ -324,7 +326,7 @@ func c04RunPayOnce(env world.Env, g c04Group, total int64, expiryBlocks int64, s
 		}
 		payer = w.A("poor")
 		if err := w.App.BankKeeper.SendCoins(ctx, w.A("funder").Addr, payer.Addr, sdk.NewCoins(sdk.NewCoin("ujkl", cost.SubRaw(1)))); err != nil {
-			panic(err)
+			return nil, "skipped/price-beyond-the-funds-of-the-harness"
 		}
 	}
 	if dup { // an identical pay-once post (other payer, other content) in the same block: same gauge identity
